@@ -361,13 +361,23 @@ pub fn gen_io(rng: &mut Rng, o: &IoOpts) -> Scenario {
                     if rng.chance(25) {
                         files.push(FileSpec { path: format!("{}/{}/.zinoma/planted.c", pdir, d), kind: FileKind::File("planted\n".into()) });
                     }
+                    if rng.chance(25) {
+                        // a work directory deeper in the declared directory (e.g. of a nested project)
+                        files.push(FileSpec { path: format!("{}/{}/sub/.zinoma/deep.c", pdir, d), kind: FileKind::File("planted deeper\n".into()) });
+                        files.push(FileSpec { path: format!("{}/{}/sub/keep.c", pdir, d), kind: FileKind::File("next to a nested work dir\n".into()) });
+                    }
                     let ext = match rng.weighted(&[40, 25, 20, 15]) {
                         0 => None,
                         1 => Some(vec!["c".to_string(), ".h".to_string()]),
                         2 => Some(vec![".c".to_string(), "".to_string()]),
                         _ => Some(vec![]),
                     };
-                    t.input.push(Res::Paths { paths: vec![d], extensions: ext });
+                    if rng.chance(20) {
+                        t.input.push(Res::Paths { paths: vec![d.clone()], extensions: Some(vec!["c".to_string()]) });
+                        t.input.push(Res::Paths { paths: vec![d], extensions: Some(vec![".h".to_string()]) });
+                    } else {
+                        t.input.push(Res::Paths { paths: vec![d], extensions: ext });
+                    }
                 }
                 2 => {
                     let src = format!("src/{}.bin", name);
@@ -384,7 +394,13 @@ pub fn gen_io(rng: &mut Rng, o: &IoOpts) -> Scenario {
             }
         }
         if kind == Kind::Build {
-            match rng.weighted(&[50, 25, 10, 15]) {
+            match rng.weighted(&[45, 22, 10, 13, 10]) {
+                4 => {
+                    // several producers share one output directory, told apart by extension
+                    let ext = format!("o{}", projects[pi].targets.len());
+                    t.writes.push(format!("dist/{}.{}", name, ext));
+                    t.output.push(Res::Paths { paths: vec!["dist".to_string()], extensions: Some(vec![ext]) });
+                }
                 0 => {
                     let out = format!("out/{}.out", name);
                     t.output.push(Res::Paths { paths: vec![out.clone()], extensions: None });
@@ -417,6 +433,7 @@ pub fn gen_io(rng: &mut Rng, o: &IoOpts) -> Scenario {
     }
     for p in &projects {
         files.push(FileSpec { path: format!("{}/out", p.dir), kind: FileKind::Dir });
+        files.push(FileSpec { path: format!("{}/dist", p.dir), kind: FileKind::Dir });
     }
     Scenario { focus: None, label: format!("io-{}proj-layout{}", np, layout), projects, files, vars, steps: vec![] }
 }
